@@ -59,6 +59,11 @@ def run(ctx, res):
     for v in range(256):
         g[v * 32 + (v % 64) // 2] = v
     jobs.append(('gfx', Gfx, bytes(g)))
+    # rows made of one repeated byte (solid and two-colour striped rows), every byte value once over two regions
+    for half in (0, 1):
+        jobs.append(('gfx', Gfx, b''.join(bytes([half * 128 + r]) * 64 for r in range(128))))
+    jobs.append(('map', Map, b''.join(bytes([rng.choice([32, 9, 10, 13, 11, 12, 0x20, 0x85, rng.randrange(256)])]) * 128 for r in range(32))))
+    jobs.append(('gff', Gff, bytes([32] * 128 + [9, 10, 11, 12, 13, 32] * 21 + [0x20, 0x0a])))
     for _ in range(ctx.budget(3, 40)):
         jobs.append(('gfx', Gfx, U.rand_bytes(rng, 0x2000)))
         jobs.append(('gff', Gff, U.rand_bytes(rng, 0x100)))
